@@ -207,7 +207,7 @@ def judge(scn, exp, res, how):
     dec_ = [f"{cls} {what}" for _, cls, what in res.events
             if len(what.split()) == 3 and what.split()[1].lstrip("-").isdigit() and what.split()[2].lstrip("-").isdigit()
             and int(what.split()[2]) < int(what.split()[1])]
-    case = {"scenario": {k: scn[k] for k in ("name", "mode", "items", "files", "argv", "cfgs", "links") if k in scn}, "how": how}
+    case = {"scenario": {k: scn[k] for k in ("name", "mode", "items", "files", "argv", "cfgs", "links", "compare_only") if k in scn}, "how": how}
     if res.rc != exp_rc:
         kind = "masked" if (res.rc is not None and res.rc < exp_rc) else "wrong"
         diag = f"; the trace shows the status DEcreasing at: {dec_}" if dec_ else ""
@@ -457,6 +457,14 @@ def linked_twice_tree(ref, tag):
             "links": {"vendor/shared.lua": "../src/shared.lua"}}
 
 
+def deep_file_tree(depth):
+    """One file of deeply nested tables. Whether it can be formatted at all is C07's business; here only
+    this is judged: the outcome (exit status and bytes) is the same for every thread count."""
+    text = "local t = " + "{ ".join([""] * (depth + 1)) + "1" + " }" * depth + "\n"
+    return {"name": f"deep{depth}", "items": [["deep.lua", "U"]], "files": {"deep.lua": L.enc(text.encode())}, "argv": ["deep.lua"],
+            "cfgs": {}, "compare_only": True}
+
+
 def with_mode(scn, mode):
     s = dict(scn)
     s["mode"] = mode
@@ -571,6 +579,8 @@ def run(tier, seed):
         bprng = clilib.Rng(190021)  # pinned tree whose last directory has an unloadable configuration
         sweep_scns += [with_mode(big_tree(bprng, 28, ref, "pinned-bad-last-dir", configured=True, bad_last=True), m) for m in ("check", "write")]
         sweep_scns += [with_mode(linked_twice_tree(ref, "pinned"), m) for m in ("check", "write")]
+        for depth in (60, 120, 250, 500, 1000, 2000):
+            sweep_scns.append(with_mode(deep_file_tree(depth), "write"))
         cprng = clilib.Rng(190020)  # pinned trees with per-directory configuration
         sweep_scns += [with_mode(big_tree(cprng, 32, ref, "pinned-configured", configured=True), m) for m in ("check", "write")]
         srng = clilib.Rng(seed * 1000003 + 19)
@@ -585,13 +595,14 @@ def run(tier, seed):
                 for r_ in range(reps):
                     jobs.append((scn, n, srng.below(1 << 30) if r_ else 1))
         sweep_deadline = t0 + (70 if quick else 480)
-        exps = {s["name"]: expected(s, ref) for s in sweep_scns}
+        exps = {s["name"]: (None if s.get("compare_only") else expected(s, ref)) for s in sweep_scns}
         refs = {}
         for scn in sweep_scns:
             r = execute(scn, threads=1, trace=False)
             refs[scn["name"]] = r
             out["evaluations"] += 1
-            out["findings"].extend(judge(scn, exps[scn["name"]], r, "threads=1 (reference run)"))
+            if not scn.get("compare_only"):
+                out["findings"].extend(judge(scn, exps[scn["name"]], r, "threads=1 (reference run)"))
         sweep_done = [0, 0]
 
         def do_sweep(job):
@@ -601,12 +612,12 @@ def run(tier, seed):
             r = execute(scn, threads=n, jitter=jit, trace=False)
             if r.timed_out:
                 return "timeout"
-            f = judge(scn, exps[scn["name"]], r, f"threads={n} jitter={jit}")
+            f = [] if scn.get("compare_only") else judge(scn, exps[scn["name"]], r, f"threads={n} jitter={jit}")
             rr = refs[scn["name"]]
             if not f and (r.rc != rr.rc or r.files != rr.files):
                 f = [{"oracle": "same-as-single-thread", "signature": "C19:differs-from-single-thread-run",
                       "detail": f"{scn['name']} threads={n} jitter={jit}: exit {r.rc} vs {rr.rc}",
-                      "case": {"scenario": {k: scn[k] for k in ("name", "mode", "items", "files", "argv", "cfgs", "links") if k in scn}, "how": f"threads={n} jitter={jit}"}}]
+                      "case": {"scenario": {k: scn[k] for k in ("name", "mode", "items", "files", "argv", "cfgs", "links", "compare_only") if k in scn}, "how": f"threads={n} jitter={jit}"}}]
             return f
 
         with cf.ThreadPoolExecutor(max_workers=svlib.NCPU) as pool:
@@ -633,7 +644,7 @@ def run(tier, seed):
                 out["inconclusive_notes"].append(why)
                 tsan_info["skipped"] = why
             else:
-                tsan_scns = [s for s in sweep_scns if not any(c == "C" for _, c in s["items"])]
+                tsan_scns = [s for s in sweep_scns if not any(c == "C" for _, c in s["items"]) and not s.get("compare_only")]
                 # crash injection (H2) needs the `verif` feature, which the TSan recipe does not enable: drop C files
                 if not tsan_scns:
                     tsan_scns = [make_scenario("UXm", m, ref) for m in ("check", "write")]
@@ -674,7 +685,7 @@ def run(tier, seed):
                 for (kind, frames), (scn, n, text) in reports.items():
                     out["findings"].append({"oracle": "thread-sanitizer", "signature": "C19:tsan:" + kind.replace(" ", "-") + ":" + "|".join(frames),
                                             "detail": f"{scn['name']} threads={n}: {text}",
-                                            "case": {"scenario": {k: scn[k] for k in ("name", "mode", "items", "files", "argv", "cfgs", "links") if k in scn}, "how": f"tsan threads={n}"}})
+                                            "case": {"scenario": {k: scn[k] for k in ("name", "mode", "items", "files", "argv", "cfgs", "links", "compare_only") if k in scn}, "how": f"tsan threads={n}"}})
                 tsan_info = {"ran": True, "runs": ran, "distinct_reports": len(reports)}
                 counters["tsan.runs"] = ran
         # ---------------- (d) valgrind memcheck over the release binary (thorough): invalid reads / writes /
@@ -749,8 +760,15 @@ def replay(case):
     ref = L.Ref()
     try:
         scn = case["scenario"]
-        exp = expected(scn, ref)
         how = case.get("how", "")
+        if scn.get("compare_only"):
+            t0 = re.search(r"threads=(\d+)", how)
+            r1 = execute(scn, threads=1, trace=False)
+            r2 = execute(scn, threads=int(t0.group(1)) if t0 else 16, trace=False)
+            if r1.rc != r2.rc or r1.files != r2.files:
+                return [{"oracle": "same-as-single-thread", "signature": "C19:differs-from-single-thread-run", "detail": f"exit {r2.rc} vs {r1.rc}"}]
+            return []
+        exp = expected(scn, ref)
         m = re.search(r"sched=(\S+)", how)
         t = re.search(r"threads=(\d+)", how)
         j = re.search(r"jitter=(\d+)", how)
